@@ -29,6 +29,9 @@ def run_workers(ctx, jobs, seeds, mode="stage", base_mode=None):
     procs = []
     for i, seed in enumerate(seeds):
         base = os.path.join(ctx.scratch, "w%d-%s" % (i, base_mode or mode))
+        if i % 2 == 1 and base_mode is None:
+            # output roots of very different lengths (the expansion may not depend on them)
+            base = os.path.join(base, "deep" + "x" * 60, "er" + "y" * 60)
         os.makedirs(base, exist_ok=True)
         env = dict(os.environ, PYTHONHASHSEED=str(seed))
         p = subprocess.Popen([sys.executable, os.path.join(VERIF, "harness", "stage_worker.py"), mode, base],
